@@ -284,6 +284,9 @@ func checkC03(c *Ctx) {
 		R.min("C03.kw", 34)
 	}
 
+	// the same tree whatever the spacing: where a name ends and the next token begins (rules of C04.ident)
+	borrowRule(c, "C04", "C04.ident", "C03.ident")
+
 	// ---- C03.syn
 	pe := newPE(u, info, nil)
 	if fd, _ := u.funcDecl("pkg/syntax/zh", "parsePunctuations"); fd != nil {
@@ -443,6 +446,46 @@ func checkC03(c *Ctx) {
 		}
 	} else {
 		R.lost("C03.linebreak", "pkg/syntax/zh.ParserZH.meetStmtLineBreak")
+	}
+	// the two line indices that test compares are the lines of the token's first and last character
+	if f := u.ssaFunc("pkg/syntax/zh", "ParserZH.next"); f != nil {
+		for _, pr := range [][2]string{{"StartLineIdxP2", "StartIdx"}, {"EndLineIdxP2", "EndIdx"}} {
+			okL, nSt := true, 0
+			for _, in := range instrsOf(f) {
+				st, ok := in.(*ssa.Store)
+				if !ok {
+					continue
+				}
+				fa, ok := st.Addr.(*ssa.FieldAddr)
+				if !ok || fieldAddrName(fa) != "ParserZH."+pr[0] {
+					continue
+				}
+				nSt++
+				call, isCall := st.Val.(*ssa.Call)
+				if !isCall || u.callName(call) != "pkg/syntax.Lexer.FindLineIdx" {
+					okL = false
+					continue
+				}
+				arg := call.Call.Args[1]
+				fromField := false
+				switch x := arg.(type) {
+				case *ssa.Field:
+					if stt, isS := x.X.Type().Underlying().(*types.Struct); isS && fieldName(stt.Field(x.Field)) == pr[1] {
+						fromField = true
+					}
+				default:
+					if _, isF := fieldLoad(arg, pr[1]); isF {
+						fromField = true
+					}
+				}
+				if !fromField {
+					okL = false
+				}
+			}
+			R.check(okL && nSt == 1, "C03.linebreak", "ParserZH.next:"+pr[0], u.pos(f.Pos()), pr[0]+" is the line of the token's "+pr[1], pr[0]+" is not computed as the line of the token's "+pr[1]+" (a token spanning several lines is taken to end where it starts, or vice versa)")
+		}
+	} else {
+		R.lost("C03.linebreak", "pkg/syntax/zh.ParserZH.next")
 	}
 	// ---- C03.yield: the 得到 ‹name› suffix has exactly one owner per production. A production that consumes
 	// 得到 itself (for the whole chain) must parse its inner calls with parseYieldResult = false, otherwise the
